@@ -1023,7 +1023,11 @@ func tnGenSel(r *rand.Rand) string {
 		qlo, qhi = 0, 1000
 	}
 	var names []string
-	for i, n := 0, r.Intn(4); i < n; i++ {
+	nn := 1 + r.Intn(3)
+	if r.Intn(10) == 0 {
+		nn = 0
+	}
+	for i := 0; i < nn; i++ {
 		names = append(names, tnHex(pick()))
 	}
 	seg := func(k int) string {
